@@ -4962,13 +4962,17 @@ impl PeerConnectionInner {
         // "Answer cannot remove m= section ... from already-established BUNDLE
         // group".  For offers we only group when there is more than one section
         // to stay compatible with plain-RTP/SIP peers.
-        let will_bundle = self.config.sdp_compatibility
-            != crate::config::SdpCompatibilityMode::LegacySip
-            && match sdp_type {
-                SdpType::Offer => ordered_transceivers.len() > 1,
-                SdpType::Answer => remote_offered_bundle,
-                _ => false,
-            };
+        // A LegacySip endpoint never OFFERS BUNDLE, but its ANSWER has to mirror
+        // the transport layout of the offer like any other answer: an offerer
+        // that bundled has put every m-line on one transport and cannot reach
+        // (or be reached from) separate per-section answer ports.
+        let legacy_sip =
+            self.config.sdp_compatibility == crate::config::SdpCompatibilityMode::LegacySip;
+        let will_bundle = match sdp_type {
+            SdpType::Offer => !legacy_sip && ordered_transceivers.len() > 1,
+            SdpType::Answer => remote_offered_bundle,
+            _ => false,
+        };
         let local_offers_rtcp_mux = self.config.rtcp_mux_policy
             == crate::config::RtcpMuxPolicy::Require
             && self.config.sdp_compatibility != crate::config::SdpCompatibilityMode::LegacySip;
@@ -5350,7 +5354,10 @@ impl PeerConnectionInner {
 
             // In LegacySip mode, omit a=mid entirely: legacy SIP endpoints confuse
             // a=mid without a matching a=group:BUNDLE.
-            if self.config.sdp_compatibility == crate::config::SdpCompatibilityMode::LegacySip {
+            if self.config.sdp_compatibility == crate::config::SdpCompatibilityMode::LegacySip
+                && !will_bundle
+            {
+                // ("omits a=mid unless BUNDLE is active", see SdpCompatibilityMode)
                 for section in &mut desc.media_sections {
                     section.mid = String::new();
                 }
